@@ -165,7 +165,7 @@ func (r *returnedBytes) add(c *mon.Ctx, got []byte, what, sig string, o *model.O
 // ---- C09 ----------------------------------------------------------------------------
 
 func runC09(c *mon.Ctx) {
-	c.Rule("(a) valid claims-sets of both profiles and of two registered extension profiles (all optional-claim subsets, hash sizes 32/48/64, 1-4 components, flag or list, with/without explicit P1 profile), built directly / through setters / by decoding: encode -> decode must give the same dynamic type and identical results for Validate and every getter, and encoding again must give identical bytes; returned encodings are kept and re-checked / re-decoded after six further encodes; (b) decodable-but-invalid and open-encoding tokens from the C04 generator: decode -> encode either fails or yields bytes that decode to the same observation. distinct_nontrivial = distinct (profile, route, optional-subset, nonce size, component count, value-class) signatures")
+	c.Rule("(a) valid claims-sets of both profiles and of two registered extension profiles (all optional-claim subsets, hash sizes 32/48/64, 1-4 components, flag or list, with/without explicit P1 profile), built directly / through setters / by decoding: encode -> decode must give the same dynamic type and identical results for Validate and every getter, and encoding again must give identical bytes; returned encodings are kept and re-checked / re-decoded after six further encodes; (b) decodable-but-invalid and open-encoding tokens from the C04 generator, and tokens of the registered extension profile with the profile key repeated under another registered name, mandatory claims set to null, wire edits and extension-claim variants: decode -> encode either fails or yields bytes that decode to the same observation. distinct_nontrivial = distinct (profile, route, optional-subset, nonce size, component count, value-class) signatures")
 	if err := extprof.Register(extprof.ExtP2Name, extprof.ExtP1Name); err != nil {
 		c.Violation("harness/register", err.Error(), nil)
 		return
@@ -330,6 +330,42 @@ func runC09(c *mon.Ctx) {
 			w, sig = sys[i], sysSig[i]
 			p = int(sig[5] - '0')
 			c.Count("systematic-tagged-null-tokens")
+		} else if i%5 == 4 {
+			// decodable-but-invalid tokens of the registered P2-based EXTENSION profile
+			// (decoded by the embedding-aware codec)
+			p = 2
+			a := g.Valid(2)
+			if g.R.Intn(2) == 0 {
+				a, _ = g.Mutated(2, 1)
+			}
+			a.Canon, a.Profile = extprof.ExtP2Name, model.SP(extprof.ExtP2Name)
+			w = a.WireCBOR()
+			edit := ""
+			switch g.R.Intn(6) {
+			case 0: // the profile key twice, another registered name second / first
+				w.Items = append(w.Items, refcbor.I(model.P2KProfile), refcbor.Tstr(model.P2Name))
+				edit = "dup-265:ext-then-p2"
+			case 1:
+				w.Items = append([]*refcbor.Node{refcbor.I(model.P2KProfile), refcbor.Tstr(model.P2Name)}, w.Items...)
+				edit = "dup-265:p2-then-ext"
+			case 2: // a mandatory claim := null
+				k := []int64{model.P2KClientID, model.P2KLifecycle, model.P2KImplID, model.P2KNonce, model.P2KInstID, model.P2KComps}[g.R.Intn(6)]
+				for q := 0; q+1 < len(w.Items); q += 2 {
+					if kk, _ := w.Items[q].Int64(); kk == k {
+						w.Items[q+1] = refcbor.Null()
+					}
+				}
+				edit = fmt.Sprintf("mandatory-null:%d", k)
+			case 3:
+				edit = "edit:" + g.WireEdit(2, w)
+			case 4:
+				w.Items = append(w.Items, refcbor.I(-75100), []*refcbor.Node{refcbor.I(0), refcbor.I(-5), refcbor.Null(), refcbor.Tstr("x"), refcbor.U(1 << 40)}[g.R.Intn(5)])
+				edit = "extension-claim-variant"
+			default:
+				edit = "plain"
+			}
+			sig = "wire|ExtP2|" + edit
+			c.Count("extension-wire-tokens")
 		} else {
 			var s model.Sig
 			p, _, w, s = g.WireCase()
@@ -383,6 +419,7 @@ func runC09(c *mon.Ctx) {
 		c.Sig(sig)
 	}
 	c.Floor("many-component-roundtrips", 20)
+	c.Floor("extension-wire-tokens", 1000)
 	c.Floor("valid-roundtrips", 1000)
 	c.Floor("wire-decoded-invalid", 1000)
 	c.Floor("profile:"+extprof.ExtP2Name, 100)
